@@ -1112,6 +1112,20 @@ func (f *Frame) resolveName(name string, at *ssa.BasicBlock, loop *Loop, st *Sta
 				}
 			}
 		}
+		if found == nil {
+			// a phi of this (dominating) block that carries the variable is its value from here on
+			for _, in := range b.Instrs {
+				p, ok := in.(*ssa.Phi)
+				if !ok {
+					break
+				}
+				if p.Comment == name {
+					if v, ok := f.env[p]; ok {
+						return v
+					}
+				}
+			}
+		}
 		if found != nil {
 			if b == at && loop != nil && b == loop.Header {
 				// refs inside the header come after the phis: still fine
